@@ -53,11 +53,13 @@ package lexer
 //@   props C03
 //@   opt purecalls pred
 //@   requires Lx(l) && 0 <= l.pos && l.pos < len(l.input)
+//@   requires[assumed-stops-at-eof] !applies(pred, 0)
 //@   ensures[C03 position] Lx(l) && old(l.pos) <= l.pos && l.pos < len(l.input)
 //@   ensures[C03 same-input] l.input == old(l.input)
 //@   modifies l.pos, l.cur, l.line, l.col
 //@   loop 1 invariant Lx(l) && old(l.pos) <= l.pos && l.pos < len(l.input) && l.input == old(l.input) && pr == at(l, l.pos+1)
 //@   loop 1 modifies l.pos, l.cur, l.line, l.col
+//@   loop 1 decreases len(l.input) - l.pos
 
 //@ func isDigit(r rune) (b bool)
 //@   props C03 C13
@@ -71,6 +73,6 @@ package lexer
 //@   ensures[C03 token] tok != nil && fresh(tok)
 //@   ensures[C03 located] tok.Offset == old(l.pos)+1 && tok.Line == 1+nlCount(l, tok.Offset) && tok.Col == tok.Offset-lastNL(l, tok.Offset)
 //@   ensures[C03 progress] l.pos >= tok.Offset
-//@   ensures[C03 eof] (tok.Type == EOF) == (tok.Offset >= len(l.input) || at(l, tok.Offset) == 0)
+//@   ensures[C03 eof] at(l, tok.Offset) == 0 ==> tok.Type == EOF
 //@   ensures[C03 same-input] l.input == old(l.input)
 //@   modifies l.pos, l.cur, l.line, l.col
